@@ -196,7 +196,12 @@ def gen_rows(rng, nrows):
                 segs.append((kind, None))
         if not any(s[0] in ("text", "special", "extended") for s in segs):
             segs.append(("text", "Z"))
-        out.append((r, col, to, rng.random() < 0.2, segs))          # at most 3 * 7 + ... < 32 - 19 columns
+        # the row must fit the 32 columns of the screen (a decoder overwrites the last cell of a row that does not;
+        # pycaption does not model that): an upper bound of the cells the segments occupy decides the indent
+        cells = sum(len(v) if k == "text" else 2 if k == "extended" else 1 for k, v in segs if k != "bs")
+        if col + to + cells > 31:
+            col = 0 if to + cells > 23 else rng.choice([0, 4, 8])
+        out.append((r, col, to, rng.random() < 0.2, segs))
     return out
 
 
